@@ -6,6 +6,7 @@ use std::rc::Rc;
 use subprocess::{Popen, PopenConfig, PopenError, Redirection};
 use vreplay::*;
 
+mod alloc;
 mod builder;
 mod comm;
 mod fail;
@@ -13,6 +14,74 @@ mod ident;
 mod life;
 mod lookup;
 mod spawn;
+
+// ---- allocation observer for the "alloc" family: counts allocations made in a forked child
+use std::alloc::{GlobalAlloc, Layout, System};
+use std::sync::atomic::{AtomicBool, AtomicI32, Ordering};
+
+static IN_FORKED_CHILD: AtomicBool = AtomicBool::new(false);
+static PARENT_PID: AtomicI32 = AtomicI32::new(0);
+
+struct Observer;
+
+fn mark() {
+    // async-signal-safe: raw open/write/close on a path prepared before fork, no allocation
+    unsafe {
+        let fd = libc::open(PATHBUF.as_ptr() as *const libc::c_char, libc::O_WRONLY | libc::O_CREAT | libc::O_APPEND, 0o666);
+        if fd >= 0 {
+            libc::write(fd, b"x".as_ptr() as *const libc::c_void, 1);
+            libc::close(fd);
+        }
+    }
+}
+
+static mut PATHBUF: [u8; 64] = [0; 64];
+
+unsafe impl GlobalAlloc for Observer {
+    unsafe fn alloc(&self, l: Layout) -> *mut u8 {
+        if IN_FORKED_CHILD.load(Ordering::Relaxed) {
+            mark();
+        }
+        System.alloc(l)
+    }
+    unsafe fn dealloc(&self, p: *mut u8, l: Layout) {
+        System.dealloc(p, l)
+    }
+    unsafe fn alloc_zeroed(&self, l: Layout) -> *mut u8 {
+        if IN_FORKED_CHILD.load(Ordering::Relaxed) {
+            mark();
+        }
+        System.alloc_zeroed(l)
+    }
+    unsafe fn realloc(&self, p: *mut u8, l: Layout, n: usize) -> *mut u8 {
+        if IN_FORKED_CHILD.load(Ordering::Relaxed) {
+            mark();
+        }
+        System.realloc(p, l, n)
+    }
+}
+
+#[global_allocator]
+static GLOBAL: Observer = Observer;
+
+extern "C" fn atfork_child() {
+    IN_FORKED_CHILD.store(true, Ordering::Relaxed);
+}
+
+pub fn arm_fork_observer() {
+    let pid = std::process::id();
+    PARENT_PID.store(pid as i32, Ordering::Relaxed);
+    let s = format!("/verif/.work/rt/alloc.{}\0", pid);
+    unsafe {
+        let b = s.as_bytes();
+        let mut i = 0;
+        while i < b.len() && i < 63 {
+            PATHBUF[i] = b[i];
+            i += 1;
+        }
+        libc::pthread_atfork(None, None, Some(atfork_child));
+    }
+}
 
 fn main() {
     std::fs::create_dir_all(RT).ok();
@@ -22,6 +91,7 @@ fn main() {
         "spawn" => spawn::run(&a),
         "fail" => fail::run(&a),
         "comm" => comm::run(&a),
+        "alloc" => alloc::run(&a),
         "builder" => builder::run(&a),
         "ident" => ident::run(&a),
         "life" => life::run(&a),
